@@ -14,7 +14,7 @@ import (
 // pattern is matched against element i of the test name; a test runs if every
 // level it has matches (deeper pattern levels are irrelevant to whether the
 // parents run; a sub-test deeper than the pattern runs if its ancestors do).
-func runSelects(pattern, name string) bool {
+func vxRunSelects(pattern, name string) bool {
 	if pattern == "" {
 		return true
 	}
@@ -24,14 +24,14 @@ func runSelects(pattern, name string) bool {
 		if i >= len(pl) {
 			break
 		}
-		if !levelMatch(pl[i], nl[i]) {
+		if !vxLevelMatch(pl[i], nl[i]) {
 			return false
 		}
 	}
 	return true
 }
 
-func levelMatch(p, s string) bool {
+func vxLevelMatch(p, s string) bool {
 	pre := strings.HasPrefix(p, "^")
 	if pre {
 		p = p[1:]
@@ -63,42 +63,48 @@ func H_C08_skip() {
 	vxrt.Flag("test.count", "1")
 
 	// the package has four tests; each may be skipped through the wrappers or run
-	tests := []string{"TestA", "TestA/sub", "TestA/sub/deep", "TestAB", "TestC", "Test1", "TestOX"}
+	tests := []string{"TestA", "TestA/sub", "TestA/sub/deep", "TestAB", "TestC", "Test1", "TestOX", "TestD", "TestD/x1"}
 	bodies := map[string]string{}
 	content := ""
 	for _, tn := range tests {
 		bodies[tn] = "v-" + tn
-		content += frame(tn+" - 1", bodies[tn])
+		content += vxFrame(tn+" - 1", bodies[tn])
 	}
 	// a stale entry of TestAB: a skip of TestA must not protect it (TestAB merely shares the prefix)
-	staleAB := frame("TestAB - 2", "stale-of-AB")
+	staleAB := vxFrame("TestAB - 2", "stale-of-AB")
 	content += staleAB
-	writeFile(path, content)
+	vxWriteFile(path, content)
 	// the test source that owns the file
 	k7 := vxrt.Param("known_K7", 1) == 0
 	if k7 {
 		// known finding K7: the test file also declares a test that stores no snapshots; when -run
 		// selects only that one, the file of its (unselected) neighbours counts as live-checked
-		vxrt.TestSources(vxrt.Dir()+"/f_test.go", "TestA", "TestAB", "TestC", "Test1", "TestOX", "TestGX")
+		vxrt.TestSources(vxrt.Dir()+"/f_test.go", "TestA", "TestAB", "TestC", "Test1", "TestOX", "TestD", "TestGX")
 	} else {
-		vxrt.TestSources(vxrt.Dir()+"/f_test.go", "TestA", "TestAB", "TestC", "Test1", "TestOX")
+		vxrt.TestSources(vxrt.Dir()+"/f_test.go", "TestA", "TestAB", "TestC", "Test1", "TestOX", "TestD")
 	}
 	// a stale snapshot file whose test source declares TestO (a test that stores nothing any more):
 	// skipping TestOX must not protect it
-	writeFile(dir+"/old_test.snap", frame("TestO - 1", "gone"))
+	vxWriteFile(dir+"/old_test.snap", vxFrame("TestO - 1", "gone"))
 	vxrt.TestSources(vxrt.Dir()+"/old_test.go", "TestO")
 
 	// p_test.go: TestP with sub-tests b (no snapshot) and c (one snapshot in p_test.snap)
 	ppath := dir + "/p_test.snap"
-	writeFile(ppath, frame("TestP/c - 1", "pc"))
+	vxWriteFile(ppath, vxFrame("TestP/c - 1", "pc"))
 	vxrt.TestSources(vxrt.Dir()+"/p_test.go", "TestP")
 	cp := WithConfig(Dir(dir), Filename("p_test"), Update(false))
 
 	// z_test.go declares only a fuzz target, which skips through the wrapper in skip mode;
 	// its snapshot file must be protected like any other
 	zpath := dir + "/z_test.snap"
-	writeFile(zpath, frame("FuzzZ - 1", "fz"))
+	vxWriteFile(zpath, vxFrame("FuzzZ - 1", "fz"))
 	vxrt.TestSources(vxrt.Dir()+"/z_test.go", "FuzzZ")
+
+	// a.b_test.go (a dot in the test file's name) declares TestDot, which owns a.b_test.snap
+	dotpath := dir + "/a.b_test.snap"
+	vxWriteFile(dotpath, vxFrame("TestDot - 1", "dot"))
+	vxrt.TestSources(vxrt.Dir()+"/a.b_test.go", "TestDot")
+	cdot := WithConfig(Dir(dir), Filename("a.b_test"), Update(false))
 
 	// a second test file in the same package whose test always runs, so that the
 	// snapshot directory is visited by Clean
@@ -109,8 +115,8 @@ func H_C08_skip() {
 	// (known finding K3: under -run such files of unselected tests are not protected)
 	k3 := vxrt.Param("known_K3", 1) == 0
 	if k3 {
-		writeFile(dir+"/TestC_1.snap", "standalone-of-C")
-		writeFile(dir+"/custom.snap", frame("TestC - 1", "custom-of-C"))
+		vxWriteFile(dir+"/TestC_1.snap", "standalone-of-C")
+		vxWriteFile(dir+"/custom.snap", vxFrame("TestC - 1", "custom-of-C"))
 	}
 	cCustom := WithConfig(Dir(dir), Filename("custom"), Update(false))
 	cStand := WithConfig(Dir(dir), Update(false))
@@ -130,7 +136,7 @@ func H_C08_skip() {
 		skip1 := vxrt.Bool("skip-Test1")
 		skipOX := vxrt.Bool("skip-TestOX")
 		wrapper := vxrt.Choice("wrapper", 3)
-		doSkip := func(t *mockT) {
+		doSkip := func(t *vxMockT) {
 			switch wrapper {
 			case 0:
 				Skip(t, "why")
@@ -141,7 +147,7 @@ func H_C08_skip() {
 			}
 		}
 		for _, tn := range tests {
-			t := newT(tn)
+			t := vxNewT(tn)
 			skipped := tn == "TestA" && skipA || (tn == "TestA/sub" || tn == "TestA/sub/deep") && (skipA || skipSub) || tn == "TestC" && skipC || tn == "TestAB" && skipAB || tn == "Test1" && skip1 || tn == "TestOX" && skipOX
 			if skipped {
 				// a descendant of a skipped test does not even start
@@ -180,22 +186,22 @@ func H_C08_skip() {
 			// whole entry id "name - n", matches the id of a test that go test did not select
 			for _, tn := range append(append([]string{}, tests...), "TestP/c") {
 				m, _ := regexp.MatchString(pattern, tn+" - 1")
-				sel := runSelects(pattern, tn) && (tn != "TestA/sub" || runSelects(pattern, "TestA")) && (tn != "TestP/c" || runSelects(pattern, "TestP"))
+				sel := vxRunSelects(pattern, tn) && (tn != "TestA/sub" || vxRunSelects(pattern, "TestA")) && (tn != "TestP/c" || vxRunSelects(pattern, "TestP"))
 				vxrt.Assume(vxrt.Not(vxrt.And(m, !sel)))
 			}
 		}
 		for _, tn := range tests {
-			if !runSelects(pattern, tn) {
+			if !vxRunSelects(pattern, tn) {
 				continue
 			}
 			// parents must be selected too
-			if tn == "TestA/sub" && !runSelects(pattern, "TestA") {
+			if tn == "TestA/sub" && !vxRunSelects(pattern, "TestA") {
 				continue
 			}
-			if tn == "TestA/sub/deep" && !(runSelects(pattern, "TestA") && runSelects(pattern, "TestA/sub")) {
+			if tn == "TestA/sub/deep" && !(vxRunSelects(pattern, "TestA") && vxRunSelects(pattern, "TestA/sub")) {
 				continue
 			}
-			t := newT(tn)
+			t := vxNewT(tn)
 			if tn == "TestC" && vxrt.Bool("selected-test-skips") {
 				// a test that -run selects but that skips itself through the wrapper
 				Skip(t, "why")
@@ -213,11 +219,20 @@ func H_C08_skip() {
 	}
 	anyRan := len(ran) > 0
 	if mode == 0 {
-		SkipNow(newT("FuzzZ"))
+		SkipNow(vxNewT("FuzzZ"))
+	}
+	dotRan := false
+	if mode == 0 && vxrt.Bool("skip-TestDot") {
+		Skip(vxNewT("TestDot"), "why")
+	} else if vxRunSelects(pattern, "TestDot") {
+		td := vxNewT("TestDot")
+		cdot.MatchSnapshot(td, "dot")
+		td.end()
+		dotRan = true
 	}
 	if mode == 0 {
 		// TestP runs (it stores nothing itself); its sub-test c either skips through the wrapper or runs
-		tc := newT("TestP/c")
+		tc := vxNewT("TestP/c")
 		if vxrt.Bool("skip-TestP/c") {
 			SkipNow(tc)
 		} else {
@@ -227,19 +242,19 @@ func H_C08_skip() {
 	}
 	// TestP has two sub-tests; only TestP/c stores a snapshot (in p_test.snap)
 	pRanC := false
-	if mode == 1 && runSelects(pattern, "TestP") {
-		if runSelects(pattern, "TestP/c") {
-			tc := newT("TestP/c")
+	if mode == 1 && vxRunSelects(pattern, "TestP") {
+		if vxRunSelects(pattern, "TestP/c") {
+			tc := vxNewT("TestP/c")
 			cp.MatchSnapshot(tc, "pc")
 			tc.end()
 			pRanC = true
 		}
 	}
-	if mode == 1 && !anyRan && runSelects(pattern, "TestG") {
+	if mode == 1 && !anyRan && vxRunSelects(pattern, "TestG") {
 		vxrt.Reach("only-other-file-selected")
 	}
-	if runSelects(pattern, "TestG") {
-		tg := newT("TestG")
+	if vxRunSelects(pattern, "TestG") {
+		tg := vxNewT("TestG")
 		cg.MatchSnapshot(tg, "g")
 		tg.end()
 	}
@@ -248,7 +263,7 @@ func H_C08_skip() {
 	out := vxrt.Stdout()
 	if ran["TestAB"] {
 		// TestAB ran and made one call: its second entry is stale whatever was skipped
-		_, _, err := refPrev("[TestAB - 2]", path)
+		_, _, err := vxRefPrev("[TestAB - 2]", path)
 		stillThere := err == nil
 		if mode == 0 {
 			vxrt.Reach("prefix-sibling-stale")
@@ -257,21 +272,24 @@ func H_C08_skip() {
 		}
 	}
 	if mode == 0 {
-		vxrt.Assert(readFile(zpath) == frame("FuzzZ - 1", "fz"), "C08:file-of-skipped-fuzz-target-kept")
+		vxrt.Assert(vxReadFile(zpath) == vxFrame("FuzzZ - 1", "fz"), "C08:file-of-skipped-fuzz-target-kept")
+	}
+	if !dotRan {
+		vxrt.Assert(vxReadFile(dotpath) == vxFrame("TestDot - 1", "dot") && !strings.Contains(out, "a.b_test.snap"), "C08:file-of-a-test-file-with-a-dotted-name-kept")
 	}
 	if mode == 0 {
 		// p_test.snap is either addressed or protected by the skip of TestP/c
-		vxrt.Assert(readFile(ppath) == frame("TestP/c - 1", "pc"), "C08:file-of-skipped-subtest-kept")
+		vxrt.Assert(vxReadFile(ppath) == vxFrame("TestP/c - 1", "pc"), "C08:file-of-skipped-subtest-kept")
 		vxrt.Assert(!strings.Contains(out, "p_test.snap"), "C08:file-of-skipped-subtest-not-listed")
 		// old_test.snap is stale whatever was skipped (TestOX merely shares a prefix with TestO)
-		vxrt.Assert(readFile(dir+"/old_test.snap") == "<missing>", "C08:skip-does-not-protect-file-of-prefix-sibling")
+		vxrt.Assert(vxReadFile(dir+"/old_test.snap") == "<missing>", "C08:skip-does-not-protect-file-of-prefix-sibling")
 	}
 	if k3 && mode == 1 && !ran["TestC"] {
-		vxrt.Assert(readFile(dir+"/TestC_1.snap") == "standalone-of-C", "C08:standalone-file-of-unselected-test-kept")
-		vxrt.Assert(readFile(dir+"/custom.snap") == frame("TestC - 1", "custom-of-C"), "C08:custom-named-file-of-unselected-test-kept")
+		vxrt.Assert(vxReadFile(dir+"/TestC_1.snap") == "standalone-of-C", "C08:standalone-file-of-unselected-test-kept")
+		vxrt.Assert(vxReadFile(dir+"/custom.snap") == vxFrame("TestC - 1", "custom-of-C"), "C08:custom-named-file-of-unselected-test-kept")
 	}
 	if mode == 1 && !pRanC {
-		vxrt.Assert(readFile(ppath) == frame("TestP/c - 1", "pc"), "C08:file-of-filtered-out-subtest-kept")
+		vxrt.Assert(vxReadFile(ppath) == vxFrame("TestP/c - 1", "pc"), "C08:file-of-filtered-out-subtest-kept")
 		vxrt.Assert(!strings.Contains(out, "p_test.snap"), "C08:file-of-filtered-out-subtest-not-listed")
 	}
 	for _, tn := range tests {
@@ -281,11 +299,11 @@ func H_C08_skip() {
 		// did not run: must be protected
 		if !anyRan {
 			// the file was not addressed at all: it must survive as a whole
-			vxrt.Assert(readFile(path) == content, "C08:file-of-tests-that-did-not-run-kept")
+			vxrt.Assert(vxReadFile(path) == content, "C08:file-of-tests-that-did-not-run-kept")
 			vxrt.Assert(!strings.Contains(out, "f_test.snap"), "C08:file-of-tests-that-did-not-run-not-listed")
 			continue
 		}
-		got, _, err := refPrev("["+tn+" - 1]", path)
+		got, _, err := vxRefPrev("["+tn+" - 1]", path)
 		vxrt.Assert(err == nil && got == bodies[tn], "C08:entry-of-test-that-did-not-run-kept")
 		vxrt.Assert(!strings.Contains(out, vxBullet+tn+" - 1\n"), "C08:entry-of-test-that-did-not-run-not-listed")
 	}
@@ -304,13 +322,13 @@ func H_C08_midskip() {
 	vxrt.Flag("test.run", "")
 	dir := vxrt.Dir() + "/__snapshots__"
 	path := dir + "/f_test.snap"
-	content := frame("TestM - 1", "one") + frame("TestM - 2", "two") + frame("TestG - 1", "g")
-	writeFile(path, content)
+	content := vxFrame("TestM - 1", "one") + vxFrame("TestM - 2", "two") + vxFrame("TestG - 1", "g")
+	vxWriteFile(path, content)
 	vxrt.TestSources(vxrt.Dir()+"/f_test.go", "TestM", "TestG", "TestK")
-	writeFile(dir+"/TestOld_1.snap", "stale standalone")
-	writeFile(dir+"/legacy.snap", frame("TestOld - 1", "stale custom-named"))
+	vxWriteFile(dir+"/TestOld_1.snap", "stale standalone")
+	vxWriteFile(dir+"/legacy.snap", vxFrame("TestOld - 1", "stale custom-named"))
 	c := WithConfig(Dir(dir), Filename("f_test"), Update(false))
-	tm := newT("TestM")
+	tm := vxNewT("TestM")
 	c.MatchSnapshot(tm, "one")
 	midSkip := vxrt.Bool("TestM-skips-after-its-first-snapshot")
 	if midSkip {
@@ -327,16 +345,16 @@ func H_C08_midskip() {
 	}
 	tm.end()
 	if vxrt.Bool("an-unrelated-test-skips") {
-		SkipNow(newT("TestK"))
+		SkipNow(vxNewT("TestK"))
 	}
-	tg := newT("TestG")
+	tg := vxNewT("TestG")
 	c.MatchSnapshot(tg, "g")
 	tg.end()
 	vxrt.Assert(len(tm.errors)+len(tg.errors) == 0, "setup:passes")
 	Clean(nil)
 	out := vxrt.Stdout()
-	vxrt.Assert(readFile(path) == content, "C08:entries-of-a-test-that-skipped-half-way-kept")
+	vxrt.Assert(vxReadFile(path) == content, "C08:entries-of-a-test-that-skipped-half-way-kept")
 	vxrt.Assert(!strings.Contains(out, vxBullet+"TestM - 2\n"), "C08:entries-of-a-test-that-skipped-half-way-not-listed")
-	vxrt.Assert(strings.Contains(out, "TestOld_1.snap\n") && readFile(dir+"/TestOld_1.snap") == "<missing>", "C09:stale-standalone-reported-and-removed-despite-a-skip")
-	vxrt.Assert(strings.Contains(out, "legacy.snap\n") && readFile(dir+"/legacy.snap") == "<missing>", "C09:stale-custom-named-file-reported-and-removed-despite-a-skip")
+	vxrt.Assert(strings.Contains(out, "TestOld_1.snap\n") && vxReadFile(dir+"/TestOld_1.snap") == "<missing>", "C09:stale-standalone-reported-and-removed-despite-a-skip")
+	vxrt.Assert(strings.Contains(out, "legacy.snap\n") && vxReadFile(dir+"/legacy.snap") == "<missing>", "C09:stale-custom-named-file-reported-and-removed-despite-a-skip")
 }
